@@ -193,6 +193,10 @@ func TestCheck(t *testing.T) {
 		}
 	}
 	patterns = append(patterns, "h.com/a/b/*", "h.com/{p}/b/a", "h.com/a/{q}/b", "h.com/{p}/{q}/{r}")
+	// the same positions under a name that differs only in letter case: the tree refuses two
+	// names for one position, so sets mixing the spellings are either rejected in every
+	// order or must behave like any other set
+	patterns = append(patterns, "h.com/{P}", "h.com/{P}/a", "h.com/a/{Q}", "h.com/{P}/{q}")
 	var universe []decl
 	for _, p := range patterns {
 		for _, m := range []string{"GET", "POST"} {
@@ -246,11 +250,20 @@ func TestCheck(t *testing.T) {
 			decls[i] = universe[k]
 		}
 		first := map[request]outcome{}
+		built, refused := 0, 0
 		mc.Permutations(len(decls), func(p []int) bool {
 			tree, err := build(decls, p)
 			if err != nil {
 				r.Outcome("build-error")
+				refused++
+				if built > 0 {
+					r.Violation("ORDER:accepted-or-refused", fmt.Sprintf("declarations=%v: refused in order %v (%v) but accepted in another order", decls, p, err), replay{decls, append([]int{}, p...), request{}})
+				}
 				return true
+			}
+			built++
+			if refused > 0 {
+				r.Violation("ORDER:accepted-or-refused", fmt.Sprintf("declarations=%v: accepted in order %v but refused in another order", decls, p), replay{decls, append([]int{}, p...), request{}})
 			}
 			for _, rq := range reqs {
 				o := lookup(tree, rq)
